@@ -1,4 +1,5 @@
 import DiscretModel.Lemmas.SyncConverge
+import DiscretModel.Lemmas.SyncRefineRoom
 import DiscretModel.Model.Sync
 /-
 C03 — synchronisation converges: all members end with the same room content.
@@ -7,6 +8,7 @@ C03 — synchronisation converges: all members end with the same room content.
 (greater version wins, deletion records are united, a deletion record removes every version of its row).
 `Lemmas/SyncConverge.lean`: any number of replicas, any sequence of directed pulls, a pull being the join.
 `Model/Sync.lean`: the pull of the code (`Defects.asImplemented`), on which the witnesses are evaluated.
+`Lemmas/SyncRefine*.lean`: the pull of the model with five switches off IS the join (refinement).
 -/
 namespace Discret.SyncOrder
 
@@ -62,6 +64,77 @@ end Discret.SyncOrder
 
 namespace Discret.Sync
 open Discret.DailyLog
+
+/-! ### refinement: with five defects repaired the pull of the model is the join -/
+
+open Discret.SyncOrder in
+/-- **C03 (refinement, one day).** For the model of `synchronise_day` with the switches #18 (ingestion ignores deletion
+    records), room-scoped synchronised deletion, deletion records keyed by row id and #30 (references only for fetched
+    rows) off — every other switch as in the code —, members holding every right: the rows and node deletion records
+    of the puller afterwards are the join of what it held with the source's rows and records of that
+    `(room, entity, day)`. Any replicas in which no stored row carries a deletion record. -/
+theorem C03_refines_day (d : Defects) (hI : d.ingestIgnoresTombstones = false) (hR : d.syncDeletionRoomScoped = false)
+    (hK : d.deletionBatchKeyedById = false) (hE : d.edgesOnlyForFetchedRows = false)
+    (rights : List Bool) (hA : AllRights rights) (dst src : Replica)
+    (hzd : NoZombie dst) (hzs : NoZombie src) (hns : IdsNodup src)
+    (hpk : PkFun (fun x => x ∈ dst.ntombs ∨ x ∈ src.ntombs)) (room ent day : Nat) :
+    abs (syncDay d rights dst src room ent day).dst = join (abs dst) (abs (slice src room ent day)) :=
+  syncDay_refines hI hR hK hE hA hzd hzs hns hpk room ent day
+
+open Discret.SyncOrder in
+/-- **C03 (refinement, one pull, any logs).** Same switches off and the whole history compared (room summary switch
+    off): `synchronise_room` is the sequence of joins with the source's days whose daily hash the puller's log does
+    not show — whatever the two logs hold. -/
+theorem C03_refines_pull_days (d : Defects) (hI : d.ingestIgnoresTombstones = false)
+    (hR : d.syncDeletionRoomScoped = false) (hK : d.deletionBatchKeyedById = false)
+    (hE : d.edgesOnlyForFetchedRows = false) (hS : d.summaryFirstEntityOnly = false)
+    (rights : List Bool) (hA : AllRights rights) (dst src : Replica)
+    (hzd : NoZombie dst) (hzs : NoZombie src) (hns : IdsNodup src)
+    (hpk : PkFun (fun x => x ∈ dst.ntombs ∨ x ∈ src.ntombs)) (room : Nat) :
+    abs (pull d rights dst src room).dst = joinDays src room (diffDays dst src room) (abs dst) :=
+  pull_refines_days hI hR hK hE hS hA hzd hzs hns hpk room
+
+open Discret.SyncOrder in
+/-- **C03 (refinement, one pull).** `pull d dst src = join dst (src restricted to the room)` on rows and node deletion
+    records, for any model `d` with the five switches off, when both logs are the logs of the stored content (C09:
+    the state after a recomputation with nothing pending), row ids are unique per replica, no stored row carries a
+    deletion record (C11's invariant), a signature stands for the record it signs, and every member holds every
+    right. With `C03_convergence` (a pull being the join): any schedule converges to the join of all replicas. -/
+theorem C03_refines_pull (d : Defects) (hI : d.ingestIgnoresTombstones = false)
+    (hR : d.syncDeletionRoomScoped = false) (hK : d.deletionBatchKeyedById = false)
+    (hE : d.edgesOnlyForFetchedRows = false) (hS : d.summaryFirstEntityOnly = false)
+    (rights : List Bool) (hA : AllRights rights) (dst src : Replica)
+    (hzd : NoZombie dst) (hzs : NoZombie src) (hnd : IdsNodup dst) (hns : IdsNodup src)
+    (hpk : PkFun (fun x => x ∈ dst.ntombs ∨ x ∈ src.ntombs))
+    (hld : IsLogOf dst.sigs dst.log) (hls : IsLogOf src.sigs src.log) (hsig : SigsDetermine dst src) (room : Nat) :
+    abs (pull d rights dst src room).dst = join (abs dst) (abs (inRoom src room)) :=
+  pull_refines_join hI hR hK hE hS hA hzd hzs hnd hns hpk hld hls hsig room
+
+open Discret.SyncOrder in
+/-- the intended behaviour is such a model -/
+theorem C03_refines_pull_intended (rights : List Bool) (hA : AllRights rights) (dst src : Replica)
+    (hzd : NoZombie dst) (hzs : NoZombie src) (hnd : IdsNodup dst) (hns : IdsNodup src)
+    (hpk : PkFun (fun x => x ∈ dst.ntombs ∨ x ∈ src.ntombs))
+    (hld : IsLogOf dst.sigs dst.log) (hls : IsLogOf src.sigs src.log) (hsig : SigsDetermine dst src) (room : Nat) :
+    abs (pull Defects.none rights dst src room).dst = join (abs dst) (abs (inRoom src room)) :=
+  pull_refines_join rfl rfl rfl rfl rfl hA hzd hzs hnd hns hpk hld hls hsig room
+
+/-- a concrete pair of peers (one deletion, one concurrent update, two days): the pull and the join, row by row -/
+def refineWorld : World :=
+  World.run Defects.none (World.init [true, true])
+    [.clock 1000, .write 0 (.new 1 1 0 1 11), .write 0 (.new 2 1 0 2 12), .compute 0, .pull 1 0 1,
+     .clock 86401000, .write 1 (.upd 1 3 13 none), .write 1 (.del 2 14), .compute 1,
+     .clock 86402000, .write 0 (.upd 1 4 15 none), .write 0 (.new 3 1 0 5 16), .compute 0]
+
+open Discret.SyncOrder in
+example :
+    let dst := refineWorld.peer 1
+    let src := refineWorld.peer 0
+    let a := abs (pull Defects.none [true, true] dst src 1).dst
+    let j := join (abs dst) (abs (inRoom src 1))
+    [1, 2, 3, 4].map a.ver = [1, 2, 3, 4].map j.ver ∧ [1, 2, 3, 4].map a.dead = [1, 2, 3, 4].map j.dead ∧
+    a.ver 1 = some (86402000, 15) ∧ a.ver 2 = none ∧ a.dead 2 = true ∧ a.ver 3 = some (86402000, 16) := by
+  decide +kernel
 
 /-! ### the pull of the code does not refine the join: witnesses (each replayed on real instances, corpus/C03) -/
 
